@@ -413,7 +413,7 @@ theorem drained_nothing (e : Enc) (he : EncOK e) (tot : Nat) : ∀ (fuel : Nat) 
     by_cases hemp : st1.win.isEmpty = true
     · simp only [hemp, ↓reduceIte] at h
       have : (st1.sent == 0) = false := by rw [i3]; simp; omega
-      simp only [this, Bool.false_eq_true, ↓reduceIte, Option.some.injEq] at h
+      simp only [this, Bool.false_and, Bool.false_eq_true, ↓reduceIte, Option.some.injEq] at h
       exact h.symm
     · simp only [hemp, Bool.false_eq_true, ↓reduceIte] at h
       generalize hidx : (if st1.idx ≥ st1.win.length then 0 else st1.idx) = idx at h
@@ -539,7 +539,7 @@ theorem emitLoop_spec (e : Enc) (he : EncOK e) : ∀ (fuel : Nat) (st : EncSt) (
           | succ m => rw [hx, List.range_succ] at this; simp at this
         have := he.nonempty
         omega
-      · simp only [hs0, Bool.false_eq_true, ↓reduceIte, Option.some.injEq] at h
+      · simp only [hs0, Bool.false_and, Bool.false_eq_true, ↓reduceIte, Option.some.injEq] at h
         subst h
         have hs0' : st.sent ≠ 0 := by rw [← i3]; simpa using hs0
         exact ⟨by simp, fun b i hp => absurd (hpend b i hp) (hnop b i), trivial, by simp, fun h => absurd h hs0', by simp⟩
